@@ -7,6 +7,7 @@ import (
 	"fmt"
 	"math/bits"
 	"sort"
+	"strconv"
 	"strings"
 )
 
@@ -66,21 +67,21 @@ const IdxW = 32 // index width of all arrays
 
 type key struct {
 	k    Kind
-	w    int
+	w    int32
 	arr  bool
+	n    int32
 	val  uint64
-	name string
 	a0   int
 	a1   int
 	a2   int
-	rest string
 }
 
 var (
-	table  = map[key]*Term{}
-	nextID = 1
-	True   *Term
-	False  *Term
+	table     = map[key]*Term{}
+	nameTable = map[string]*Term{} // variables and wide n-ary nodes, keyed by a string
+	nextID    = 1
+	True      *Term
+	False     *Term
 )
 
 func init() {
@@ -88,12 +89,28 @@ func init() {
 	False = intern(&Term{K: KConst, W: 0, Val: 0})
 }
 
-// NumTerms returns how many distinct terms were interned (for evidence).
+// NumTerms returns how many distinct terms were created (for evidence).
 func NumTerms() int { return nextID - 1 }
 
 func intern(t *Term) *Term {
-	k := key{k: t.K, w: t.W, arr: t.Arr, val: t.Val, name: t.Name}
 	n := len(t.Args)
+	if t.Name != "" || n > 3 {
+		var sb strings.Builder
+		fmt.Fprintf(&sb, "%d/%d/%v/%d/%s/", t.K, t.W, t.Arr, t.Val, t.Name)
+		for _, a := range t.Args {
+			sb.WriteString(strconv.Itoa(a.ID))
+			sb.WriteByte(',')
+		}
+		ks := sb.String()
+		if e, ok := nameTable[ks]; ok {
+			return e
+		}
+		t.ID = nextID
+		nextID++
+		nameTable[ks] = t
+		return t
+	}
+	k := key{k: t.K, w: int32(t.W), arr: t.Arr, val: t.Val, n: int32(n)}
 	if n > 0 {
 		k.a0 = t.Args[0].ID
 	}
@@ -103,14 +120,6 @@ func intern(t *Term) *Term {
 	if n > 2 {
 		k.a2 = t.Args[2].ID
 	}
-	if n > 3 {
-		var sb strings.Builder
-		for _, a := range t.Args[3:] {
-			fmt.Fprintf(&sb, "%d,", a.ID)
-		}
-		k.rest = sb.String()
-	}
-	k.a0 = k.a0*4 + min(n, 3) // distinguish arities cheaply
 	if e, ok := table[k]; ok {
 		return e
 	}
@@ -140,7 +149,22 @@ func Const(w int, v uint64) *Term {
 	if w <= 0 || w > 64 {
 		panic(fmt.Sprintf("term.Const: bad width %d", w))
 	}
-	return intern(&Term{K: KConst, W: w, Val: v & mask(w)})
+	v &= mask(w)
+	if v < internConstBelow || w <= 16 || v == mask(w) {
+		return intern(&Term{K: KConst, W: w, Val: v})
+	}
+	// large constants are not hash-consed (loops over 2^20 table slots would otherwise pin
+	// millions of terms); equal constants are recognised by value wherever it matters (Same).
+	t := &Term{K: KConst, W: w, Val: v, ID: nextID}
+	nextID++
+	return t
+}
+
+const internConstBelow = 1 << 16
+
+// Same reports syntactic identity, looking through non-interned constants.
+func Same(a, b *Term) bool {
+	return a == b || (a.K == KConst && b.K == KConst && a.W == b.W && a.Val == b.Val && !a.Arr && !b.Arr)
 }
 
 func Bool(b bool) *Term {
@@ -334,7 +358,7 @@ func Ite(c, a, b *Term) *Term {
 	if c == False {
 		return b
 	}
-	if a == b {
+	if Same(a, b) {
 		return a
 	}
 	if c.K == KNot {
@@ -1345,7 +1369,7 @@ func Select(arr, idx *Term) *Term {
 	for {
 		switch cur.K {
 		case KStore:
-			if cur.Args[1] == idx {
+			if Same(cur.Args[1], idx) {
 				return cur.Args[2]
 			}
 			if ProvablyDistinct(cur.Args[1], idx) {
@@ -1366,13 +1390,13 @@ func Store(arr, idx, v *Term) *Term {
 	if !arr.Arr || idx.W != IdxW || v.W != arr.W {
 		panic(fmt.Sprintf("term.Store: bad sorts (elem %d, val %d, idx %d)", arr.W, v.W, idx.W))
 	}
-	if arr.K == KStore && arr.Args[1] == idx {
+	if arr.K == KStore && Same(arr.Args[1], idx) {
 		arr = arr.Args[0]
 	}
-	if v.K == KSelect && v.Args[0] == arr && v.Args[1] == idx {
+	if v.K == KSelect && v.Args[0] == arr && Same(v.Args[1], idx) {
 		return arr
 	}
-	if arr.K == KConstArr && arr.Args[0] == v {
+	if arr.K == KConstArr && Same(arr.Args[0], v) {
 		return arr
 	}
 	// keep stores at constant indices sorted so that equal contents get equal terms
